@@ -229,6 +229,7 @@ typedef struct {
   uint64_t size;
   uint64_t magic;
 } ahdr_t;
+#define AHELD 0xA110C8EDA110C8EEull /* sim_mem_hold: free() is recorded but the block stays readable */
 #define AMAGIC 0xA110C8EDA110C8EDull
 #define AFREED 0xF4EEDF4EEDF4EED0ull
 static char* arena;
@@ -298,6 +299,14 @@ void free(void* p) {
   if (!alloc_in_arena(p)) return;
   ahdr_t* h = (ahdr_t*)p - 1;
   if (h->magic == AFREED) sim_violation("MEM-double-free", "block %p size %lu freed twice", p, (unsigned long)h->size);
+  if (h->magic == AHELD) { /* logically freed exactly once; contents and shadow left alone */
+    if (sim_active && me >= 0) ghost_on_free(p, h->size);
+    a_lock();
+    h->magic = AFREED;
+    live_blocks--;
+    a_unlock();
+    return;
+  }
   if (h->magic != AMAGIC) sim_violation("MEM-bad-free", "free of non-block %p", p);
   if (sim_active && me >= 0) ghost_on_free(p, h->size);
   a_lock();
@@ -325,6 +334,10 @@ int posix_memalign(void** out, size_t al, size_t n) {
 void* aligned_alloc(size_t al, size_t n) { return a_alloc(n, al, 0, 1); }
 void* memalign(size_t al, size_t n) { return a_alloc(n, al, 0, 1); }
 size_t malloc_usable_size(void* p) { return p ? ((ahdr_t*)p - 1)->size : 0; }
+void sim_mem_hold(void* p) {
+  ahdr_t* h = (ahdr_t*)p - 1;
+  if (alloc_in_arena(p) && h->magic == AMAGIC) h->magic = AHELD;
+}
 int sim_mem_is_live(const void* p) { return alloc_in_arena(p) && shadow[((const char*)p - arena) / 8] == SH_VALID; }
 int sim_mem_is_freed(const void* p) { return alloc_in_arena(p) && shadow[((const char*)p - arena) / 8] == SH_FREED; }
 size_t sim_live_blocks(void) { return live_blocks; }
@@ -757,6 +770,10 @@ void sim_compute(uint64_t ns) {
   T[me].st = ST_RUN;
   n_stalled--;
   idle_since_ns = now_ns;
+}
+void sim_compute_until(uint64_t abs_ns) {
+  if (!sim_active || me < 0 || abs_ns <= now_ns) return;
+  sim_compute(abs_ns - now_ns);
 }
 void sim_wait_idle(void) {
   T[me].st = ST_WAITIDLE;
